@@ -56,7 +56,7 @@ def check(run):
             continue
         ks = range(nev) if (run.tier == "quick" and nev <= 40) or run.tier == "thorough" else sorted(run.rng.sample(range(nev), 40))
         for k in ks:
-            cls = run.rng.choice(["one", "one", "empty", "multi", "unicode"])
+            cls = run.rng.choice(["one", "one", "empty", "multi", "unicode", "picky"])
             c2 = copy.deepcopy(c)
             c2["id"] = "%s_k%d" % (c["id"], k)
             c2["fault"] = {"at": k, "cls": cls, "again": run.rng.random() < 0.5}
